@@ -304,7 +304,8 @@ func runC16(c *Ctx) {
 		descr string
 	}
 	var cases []cs
-	sizes := []int{1, 2, 4, 8, 1, 2, 4, 8, 0, 3, 5, 16, -1}
+	// valid widths, small invalid sizes, and invalid sizes that alias a valid width when truncated to 8/16/32 bits
+	sizes := []int{1, 2, 4, 8, 1, 2, 4, 8, 0, 3, 5, 16, -1, 1<<32 + 1, 1<<32 + 2, 1<<32 + 4, 1<<32 + 8, -(1 << 32) + 4, 1<<16 + 2, 1<<8 + 1, 1<<63 - 1, -1 << 63, 1<<40 + 8}
 	// directed: every value x every fitting scalar type x every valid width, both families
 	for _, v := range vals {
 		for pick := 0; pick < 10; pick++ {
@@ -325,6 +326,12 @@ func runC16(c *Ctx) {
 			cases = append(cases, cs{fmt.Sprintf("c16.new int %d %s", w, sTok(strTokI(s))), func() secs2.Item { return secs2.NewIntItem(ww, ss) }, fmt.Sprintf("NewIntItem(%d, %q)", w, s)})
 			cases = append(cases, cs{fmt.Sprintf("c16.new uint %d %s", w, sTok(strTokU(s))), func() secs2.Item { return secs2.NewUintItem(ww, ss) }, fmt.Sprintf("NewUintItem(%d, %q)", w, s)})
 		}
+	}
+	for _, w := range sizes[8:] {
+		ww := w
+		cases = append(cases, cs{fmt.Sprintf("c16.new int %d i:5", w), func() secs2.Item { return secs2.NewIntItem(ww, 5) }, fmt.Sprintf("NewIntItem(%d, 5)", w)})
+		cases = append(cases, cs{fmt.Sprintf("c16.new uint %d i:5", w), func() secs2.Item { return secs2.NewUintItem(ww, 5) }, fmt.Sprintf("NewUintItem(%d, 5)", w)})
+		cases = append(cases, cs{fmt.Sprintf("c16.new uint %d is:5,6", w), func() secs2.Item { return secs2.NewUintItem(ww, []uint16{5, 6}) }, fmt.Sprintf("NewUintItem(%d, []uint16{5,6})", w)})
 	}
 	// random argument lists
 	for n := 0; n < c.Pick(6000, 120000); n++ {
@@ -465,11 +472,11 @@ func c16Floats(c *Ctx) {
 		return math.Float64bits(v)
 	}
 	for n := 0; n < c.Pick(4000, 60000); n++ {
-		w := []int{4, 8}[r.IntN(2)]
+		w := []int{4, 8, 4, 8, 4, 8, 0, 2, 16, 1<<32 + 4, 1<<32 + 8, -4}[r.IntN(12)]
 		k := 1 + r.IntN(3)
 		var gos []any
 		exp := &LItem{Kind: "F", W: w}
-		wantErr := false
+		wantErr := w != 4 && w != 8
 		for i := 0; i < k; i++ {
 			switch r.IntN(7) {
 			case 0, 1:
